@@ -1273,6 +1273,15 @@ def oracle_c09(an):
                     if not any(e['cb'] in ('cancel', 'on_cancel') and e['seq'] > crx['seq'] for e in prod):
                         V('producer_not_cancelled', 'interaction %d: responder publisher (%s) not cancelled by CANCEL'
                           % (iid, src), crx['seq'], **facts)
+    # "Cancelling one stream does not disturb any other stream": whatever was not cancelled is served as if nothing happened
+    cancelled = {iid for iid in an.ia if an.cancel_seq(iid) is not None or an.cancel_seq(iid, 'responder') is not None
+                 or any(e['what'] == 'cancel_sent_future' for e in an.acts.get(iid, ()))}
+    if cancelled and an.fault_free and an.plan.get('profile') in ('core-cancel', 'cancel-sweep'):
+        for v in oracle_c01(an):
+            iid = v.facts.get('iid')
+            if iid is not None and iid not in cancelled:
+                V('other_stream_disturbed', 'interaction %d was not cancelled, yet: %s' % (iid, v.msg), v.seq, via=v.cls,
+                  kind=an.ia[iid]['kind'], cancelled_kinds=','.join(sorted({an.ia[c]['kind'] for c in cancelled})))
     return out
 
 
